@@ -346,6 +346,11 @@ def gen_pks(ctx, table, N):
                     pos = sz if not ops else None
                     if pos is None: ops.append("k|end"); pos = sz
                 ops.append(tok(it)); sz = max(sz, pos + size(it))
+                z = rng.random()
+                if z < 0.15:
+                    n = rng.choice([0, sz, max(0, sz - 1), sz + 2, rng.randrange(sz + 4)]); ops.append("z|%d" % n); sz = n
+                elif z < 0.3:
+                    n = rng.choice([0, 1, 3]); ops.append("g|%d" % n); sz += n
             ops.append(rng.choice(["k|end", "k|0"]))
         if rng.random() < 0.6: ops.append("x")
         if slots is not None:
@@ -379,6 +384,11 @@ def oracle_pks(case, impl, spec):
                 return ("op %d: pack of %d bytes at cursor %d of a %d-byte buffer: buffer must become %s (bytes outside [cursor,cursor+size) unchanged, "
                         "size max(old,cursor+size)=%d), impl has %d bytes %s" % (i, len(b), pos, len(buf), bytes(nb).hex()[:120], len(nb), len(got), got.hex()[:120]))
             buf = bytes(nb); pos += len(b)
+        elif it[0] in ("z", "g"):
+            n = int(it[1]); nb = (buf[:n] + bytes(max(0, n - len(buf)))) if it[0] == "z" else buf + bytes(n)
+            got = bytes.fromhex(f[0]) if f[0] != "_" else b""
+            if got != nb: return "op %d (%s): buffer must become %s, impl has %s" % (i, op, nb.hex()[:100], got.hex()[:100])
+            buf = nb
         elif it[0] == "k":
             pos = len(buf) if it[1] == "end" else int(it[1])
         elif it[0] == "x":
@@ -413,6 +423,11 @@ def oracle(case, impl, spec):
         if (m.group(2), m.group(4)) != (m.group(3), "0"):
             return "MPI datatype has (lb, extent) = (%s, %s), arrays of the C++ type need (0, sizeof = %s): elements 1.. of every array/vector transfer are misplaced" % (m.group(4), m.group(2), m.group(3))
         if int(m.group(5)) < 0 or int(m.group(6)) > int(m.group(3)): return "true extent [%s,%s) leaves the object [0,%s)" % (m.group(5), m.group(6), m.group(3))
+        fl = dict(x.split("=") for x in spec.split()[3:])
+        for k, what in (("tbl", "ComposeMPITraits table maps a C type to an MPI type of different size/kind"),
+                        ("views", "MPIData's view of the object and its MPITraits datatype are not the same layout"),
+                        ("agree", "igather/iallgather receive signature differs from the send signature")):
+            if fl.get(k) != "true": return what
         if s.group(1) != "true": return "type map not well formed (overlap / outside sizeof / extent != sizeof)"
         if s.group(2) != s.group(3): return "type map covers %s, communicated state is %s" % (s.group(2), s.group(3))
         want = sum(int(x.split(":")[1]) for x in s.group(3).split(","))
@@ -500,8 +515,13 @@ def isolate(ctx):
     atexit.register(done)
 
 
+def params_hook(ctx):
+    V.sh([sys.executable, os.path.join(V.VERIF, "tools", "extract_params.py"), ctx.repo], check=True)
+
+
 def run(ctx):
     isolate(ctx)
+    ctx.params_hook = params_hook
     from concurrent.futures import ThreadPoolExecutor
     with ThreadPoolExecutor(max_workers=2) as ex:
         fut = ex.submit(V.cxx, ctx, [HARNESS], ctx.path("impl"), mpi=True, opt="-O1")
